@@ -57,6 +57,59 @@ CATALOG = {
                  "short, that spawn callers hold the management lock, and that the worker runs one call at a time.",
         "note": "Partial: the upper-bound clause is decided structurally; 'parallelism is actually delivered' is scheduling/performance and is not decided.",
     },
+    "C03": {
+        "ref": "DESIGN.md section 4 C03",
+        "technique": "static analysis: role-flow agreement of constructor fields (id, fn, args, kwargs, value, error) across submit -> work item -> "
+                     "call item -> worker -> result item -> manager; dominance / control dependence of the single dispatch site; lock context of id allocation",
+        "level": "Decides routing structurally for all paths: ids come from a counter that only grows by one under the lock and the pending key, the "
+                 "queued id and the pre-increment counter are one term; fn/args/kwargs travel one-to-one and the call item computes "
+                 "fn(*args, **kwargs) of its own fields; value and exception fields are never swapped and are reported under the running item's id; "
+                 "the manager resolves the item popped under that id with the matching field; exactly one dispatch site, on the manager thread, "
+                 "only when set_running_or_notify_cancel() is true, fed by a consuming get; no re-queue; no retry in the worker.",
+        "note": "Partial: map(...) == list(map(...)) for every chunksize/length, order of the chunk chain and execution counts under respawn are "
+                "runtime values and are NOT decided (an AST match on the reverse/pop idiom would be a frozen fragment).",
+    },
+    "C04": {
+        "ref": "DESIGN.md section 4 C04",
+        "technique": "static analysis: handler-breadth and handler-continuation rules on CFGs with labelled exceptional edges; must-pass-through of "
+                     "slot release and error hook in the feeder; acquire/release pairing on the pipe write lock; effect queries (no broken/kill effect)",
+        "level": "Decides that every call of user code in the worker, the result put and every done-callback sit inside a BaseException handler that "
+                 "reports under the task's own id and neither re-raises nor leaves the loop; that the feeder pickles before taking the pipe lock, "
+                 "releases it in finally, and on error releases the queue slot and calls the hook on every continuation; that the hook fails only "
+                 "its own future with PicklingError/RuntimeError + cause, wakes the manager and never flags broken / kills; that the remote "
+                 "traceback is attached as __cause__ of the task's own exception object.",
+        "note": "Partial: containment is decided as control-flow/effect structure; the values of sibling outcomes and send_bytes size limits are not.",
+    },
+    "C06": {
+        "ref": "DESIGN.md section 4 C06",
+        "technique": "static analysis: parameter-flow of kill_workers across four functions, control dependence on the kill flag, dominance order "
+                     "fail-then-kill, kill-tree enumeration-before-kill order in both implementations",
+        "level": "Decides that kill_workers=True reaches the flag (and is not reset by the manager), that on the flag's branch every pending item is "
+                 "atomically removed and failed with ShutdownExecutorError before the kill, that the kill empties the worker table and kills every "
+                 "tree with children enumerated before their parent dies and reaped afterwards, after which the manager leaves through the "
+                 "empty-pending exit.",
+        "note": "Partial: wall-clock promptness and the behaviour of psutil/pgrep are not decided.",
+    },
+    "C09": {
+        "ref": "DESIGN.md section 4 C09",
+        "technique": "static analysis: lock context of every access to the singleton globals, decision table of the replace condition, "
+                     "set comparison of factory parameters against kwargs keys (argument completeness), dominance order of replacement steps, abstract "
+                     "evaluation of the resize polling guards",
+        "level": "Decides for every path of the factory: globals only under the executor lock; replace iff broken or shutdown or not reuse (8 rows), "
+                 "'auto' = equality of requested and stored kwargs; no constructor argument can be silently dropped (public function -> factory -> "
+                 "kwargs -> constructor -> base constructor, by name); shutdown(wait=True) -> reset -> returned recursive construction; ids grow by "
+                 "one under the lock; reuse resizes to the requested size; the call's polling loops can end.",
+        "note": "Partial: outcomes of thread races as values are not decided; the health of the returned executor relies on C01/C02 clauses.",
+    },
+    "C10": {
+        "ref": "DESIGN.md section 4 C10",
+        "technique": "static analysis: lock identity between submit and resize (points-to tokens), dominance order of wait-jobs / size write / "
+                     "sentinel posts, symbolic sentinel count, effect query (no kill), abstract evaluation of the three polling guards",
+        "level": "Decides that submit and _resize are serialised by one lock object, that job completion is awaited before sentinels, that the new "
+                 "size is written under the management lock before exactly alive-target sentinels are posted under it, that nothing is killed, "
+                 "that the pool is topped up and the manager woken afterwards, and that every wait loop terminates in the failure post-state.",
+        "note": "Partial: which pids survive is a runtime value and is not decided.",
+    },
 }
 
 NOT_APPLICABLE = {}
